@@ -1,10 +1,10 @@
 package sem
 
 import (
-	"os"
-	"strconv"
 	"fmt"
 	"math/rand"
+	"os"
+	"strconv"
 	"sync"
 
 	openfgav1 "github.com/openfga/api/proto/openfga/v1"
